@@ -1,10 +1,15 @@
 import CgtModel.Validate
+import CgtModel.Generated
 /-! # C15 — every input yields either a complete report or a clean error, never a crash
 
 Partial by nature: absence of panics and hangs in the real process is not a statement about a model.
 Proved for the model:
 * `C15_validator_iff` — the standalone validator reports an error exactly when some quantity is zero or
   negative, some price, fee or total value is negative, or a split ratio is not positive;
+  `C15_validator_as_modelled` — the comparisons `opErrors` transcribes are exactly the error sites of
+  validation.rs as the translator reads them on every run (group `validator`: every
+  `if <field> <cmp> Decimal::ZERO { result.errors.push(…` by site, and which field each trade-like arm
+  passes as its price);
 * `C15_failure_writes_nothing` — in the CLI's output discipline a failing stage gives a non-zero exit,
   nothing on standard output and no file written; `C15_success_writes_once` — success writes the
   payload to exactly the chosen sink;
@@ -64,5 +69,17 @@ theorem C15_default_pdf_never_overwrites (stages : List Bool) (payload path : St
 
 example : opBad (.buy 0 5 10) := by simp [opBad]
 example : ¬ opBad (.buy 1 0 0) := by simp [opBad]; grind
+
+/-- the validator model transcribes exactly the error sites of validation.rs (translator group `validator`):
+    `check_trade_fields` tests quantity = 0, quantity < 0, price < 0, fees < 0 and is called by BUY and SELL
+    with their price and by CAPRETURN with its total value; SPLIT/UNSPLIT test ratio = 0 and ratio < 0;
+    DIVIDEND tests total value < 0; ACCUMULATION tests quantity = 0, quantity < 0, total value < 0 -/
+theorem C15_validator_as_modelled :
+    Cgt.validatorChecks =
+      [("trade", "fields.amount", "=="), ("trade", "fields.amount", "<"), ("trade", "fields.price.amount", "<"),
+       ("trade", "fields.fees.amount", "<"), ("Buy", "check_trade_fields", "price"), ("Sell", "check_trade_fields", "price"),
+       ("Split", "*ratio", "=="), ("Split", "*ratio", "<"), ("Unsplit", "*ratio", "=="), ("Unsplit", "*ratio", "<"),
+       ("Dividend", "total_value.amount", "<"), ("Accumulation", "*amount", "=="), ("Accumulation", "*amount", "<"),
+       ("Accumulation", "total_value.amount", "<"), ("CapReturn", "check_trade_fields", "total_value")] := by decide
 
 end Cgt.C15
